@@ -882,6 +882,78 @@ def c08_9(ck, prog):
                 age, 'offered' if got else 'not offered', newk))
 
 
+def c08_10(ck, prog):
+    r = ck.rule('C08.10', 'the DBUS_COOKIE_SHA1 digest is SHA-1 over "server challenge : client challenge : cookie": on '
+                'the successful path of sha1_compute_hash the string handed to _dbus_sha_compute was composed of exactly '
+                'these pieces in this order, the cookie being what the keyring returned for the cookie id', 'TS',
+                breaks='a digest that does not depend on the secret cookie (or on the server\'s nonce) can be computed by '
+                'anybody who saw the exchange: a peer that never read the keyring authenticates as its owner', floor=1)
+    A = 'dbus/dbus-auth.c'
+    fn = prog.fn('sha1_compute_hash', A)
+    P = {p['name']: p['id'] for p in fn.params}
+    sha = [c for b, i, c in fn.calls('_dbus_sha_compute')]
+    if len(sha) != 1:
+        raise AnalysisBroken('sha1_compute_hash: expected one _dbus_sha_compute call')
+    target = strip_addr(sha[0]['args'][0])
+    key_calls = [c for b, i, c in fn.calls('_dbus_keyring_get_hex_key')]
+    if target is None or not is_ref(target) or len(key_calls) != 1 or len(fn.params) < 4:
+        raise AnalysisBroken('sha1_compute_hash: digest input / keyring lookup not recognised')
+    tid = target['id']
+    cookie = strip_addr(key_calls[0]['args'][2])
+    okid = is_ref(key_calls[0]['args'][1]) and key_calls[0]['args'][1].get('id') == fn.params[1]['id']
+    srv, cli = fn.params[2]['id'], fn.params[3]['id']
+
+    def piece(c):
+        cal = c.get('callee')
+        if cal == '_dbus_string_copy' and len(c['args']) >= 3:
+            dst = strip_addr(c['args'][2])
+            if dst is not None and is_ref(dst) and dst.get('id') == tid:
+                src = c['args'][0]
+                inner = strip_addr(src)
+                if is_ref(src) and src.get('id') == srv:
+                    return 'server'
+                if is_ref(src) and src.get('id') == cli:
+                    return 'client'
+                if inner is not None and cookie is not None and is_ref(inner) and inner.get('id') == cookie.get('id'):
+                    return 'cookie'
+                return 'other(%s)' % estr(src)
+        if cal in ('_dbus_string_append', '_dbus_string_append_byte') and c['args']:
+            dst = strip_addr(c['args'][0])
+            if dst is not None and is_ref(dst) and dst.get('id') == tid:
+                a = c['args'][1]
+                if a.get('k') == 'str':
+                    return a['v']
+                if is_int(a):
+                    return chr(a['v'])
+                return 'other(%s)' % estr(a)
+        return None
+
+    def on_event(user, ev, ctx):
+        if ev['ev'] == 'call':
+            c = ev['e']
+            if c.get('callee') == '_dbus_string_init' and c['args']:
+                d = strip_addr(c['args'][0])
+                if d is not None and is_ref(d) and d.get('id') == tid:
+                    return ()
+            p = piece(c)
+            if p is not None:
+                return (user or ()) + (p,)
+            if c['id'] == sha[0]['id']:
+                if tuple(user or ()) != ('server', ':', 'client', ':', 'cookie'):
+                    ctx.report('the digest is computed over %s; the specification prescribes server challenge ":" '
+                               'client challenge ":" cookie' % (' '.join(user or ()) or 'nothing'), c['line'],
+                               key='composition')
+        return user
+    ex = Explorer(fn, init=None, on_event=on_event, track=None, cap=200000).run()
+    if ex.reports:
+        r.from_reports(ex.reports, keyfn=lambda k, rep: 'sha1_compute_hash:%s' % k)
+    elif okid:
+        r.ok('sha1_compute_hash:composition')
+    else:
+        r.violation('sha1_compute_hash:cookie-id', fn.name, A, key_calls[0]['line'],
+                    'the cookie is not looked up by the cookie id the function was given')
+
+
 def run(ck):
     ck.explanation = (
         'Static rules over dbus/dbus-auth.c, dbus/dbus-transport.c, dbus/dbus-transport-socket.c: the server\'s '
@@ -906,3 +978,4 @@ def run(ck):
         c08_7(ck, prog)
         c08_8(ck, prog)
         c08_9(ck, prog)
+        c08_10(ck, prog)
